@@ -133,6 +133,8 @@ def do_replay(prop: str, path: str) -> int:
     with open(path, encoding="utf-8") as f:
         rep = json.load(f)
     case = rep.get("case") or {}
+    if not case and "kind" not in rep and ("hangup" in rep or "churn" in rep):
+        case = rep          # a corpus witness of C16 (the bare case)
     print(f"replay of {path}: kind={rep.get('kind')} property={rep.get('property')}")
     if rep.get("kind") == "no-failing-input-found":
         print("no failing input was found; what no longer checks:")
@@ -289,6 +291,10 @@ def do_replay(prop: str, path: str) -> int:
         # C01: concurrent Gateway.send calls over a transport whose write suspends, under a schedule
         from .props import codec_concurrent
         return codec_concurrent.replay(case)
+    if "hangup" in case:
+        # C16: the far end ends the connection while the body of the context reads, then the context is left
+        from .props import hangup
+        return hangup.replay(case)
     if "interference" in case:
         from .props import codec_interference
         codec_interference.replay(case)
@@ -330,8 +336,12 @@ def body_changes() -> list[str]:
 TIE_PROPS = {"C03", "C04", "C05", "C06", "C07", "C08", "C10", "C11", "C12", "C13", "C19"}
 TIE_MOD = "AioMySensors.Lemmas.BodiesEq"
 # properties about the stream transports: the generated StreamTransport methods must equal the model's Transport.*
-STREAM_TIE_PROPS = {"C03", "C17"}
+# (C16: "disconnects the transport" - its theorems about read / disconnect after the far end hung up speak about them)
+STREAM_TIE_PROPS = {"C03", "C16", "C17"}
 STREAM_TIE_MOD = "AioMySensors.Lemmas.StreamBodiesEq"
+# further property files (same Lean namespace AioMySensors.<prop>) whose theorems are obligations of the property but
+# stand on a tie of their own, so that a tie that stops checking takes down these theorems and not the whole property file
+PROP_EXTRA_MODS = {"C16": ["AioMySensors.Properties.C16Hangup"]}
 # properties about the decoder: MessageSchema.load assembled from the generated validators must equal `decode`
 CODEC_TIE_PROPS = {"C01", "C02", "C03"}
 CODEC_TIE_MOD = "AioMySensors.Lemmas.CodecBodiesEq"
@@ -544,6 +554,11 @@ def run(prop: str, tier: str, replay: str | None) -> int:
                 if rc_t != 0:
                     proofs_ok = False
                     out_p += "\n" + out_t
+        for xm in PROP_EXTRA_MODS.get(prop, []):
+            rc_t, out_t = sh(["lake", "build", xm], cwd=LEAN)
+            if rc_t != 0:
+                proofs_ok = False
+                out_p += "\n" + out_t
         for t in xties:
             rc_b, out_b = sh(["lake", "build", t["gen_mod"]], cwd=LEAN)
             if rc_b != 0:
@@ -559,6 +574,8 @@ def run(prop: str, tier: str, replay: str | None) -> int:
 
     # obligations: theorems of the property file and of the project's lemma files it imports
     mods = [m for m in closure(prop_mod) if ".Properties." in m or ".Lemmas." in m]
+    for xm in PROP_EXTRA_MODS.get(prop, []):
+        mods.extend(m for m in closure(xm) if (".Properties." in m or ".Lemmas." in m) and m not in mods)
     if tie and TIE_MOD not in mods:
         mods.append(TIE_MOD)
     if stream_tie and STREAM_TIE_MOD not in mods:
@@ -608,10 +625,12 @@ def run(prop: str, tier: str, replay: str | None) -> int:
                 hits.append(f"{os.path.relpath(path, LEAN)}:{i}: {line.strip()[:80]}")
     axioms = {}
     if proofs_ok:
-        names = [n for (m, n) in theorems if m == prop_mod]
+        prop_mods = [prop_mod] + PROP_EXTRA_MODS.get(prop, [])
+        names = [n for (m, n) in theorems if m in prop_mods]
         tmp = os.path.join(lib.scratch(), f"audit_{prop}.lean")
         with open(tmp, "w", encoding="utf-8") as f:
-            f.write(f"import {prop_mod}\nopen AioMySensors\n" + "".join(f"#print axioms AioMySensors.{prop}.{n}\n" for n in names))
+            f.write("".join(f"import {m}\n" for m in prop_mods) + "open AioMySensors\n"
+                    + "".join(f"#print axioms AioMySensors.{prop}.{n}\n" for n in names))
         rc, out = sh(["lake", "env", "lean", tmp], cwd=LEAN)
         prefix = f"AioMySensors.{prop}."
         for m2 in re.finditer(r"'([^']+)' (?:depends on axioms: \[([^\]]*)\]|does not depend on any axioms)", out):
